@@ -44,8 +44,17 @@
 		}
 	}
 
-	fn esc(s: &str) -> String { s.replace('\n', "\\n") }
-	fn unesc(s: &str) -> String { s.replace("\\n", "\n") }
+	// Tiny v2 comment escaping: `\\` -> `\\\\`, line break -> `\\n` (a backslash before any other character stands for itself)
+	fn esc(s: &str) -> String { s.replace('\\', "\\\\").replace('\n', "\\n") }
+	fn unesc(s: &str) -> String {
+		let mut out = String::new();
+		let mut it = s.chars();
+		while let Some(c) = it.next() {
+			if c != '\\' { out.push(c); continue; }
+			match it.next() { Some('n') => out.push('\n'), Some('\\') => out.push('\\'), Some(o) => { out.push('\\'); out.push(o); }, None => out.push('\\') }
+		}
+		out
+	}
 	fn row(names: &[Nm]) -> String { names.iter().map(|n| format!("\t{}", n.as_deref().unwrap_or(""))).collect() }
 
 	/// model -> Tiny v2 text.  `rev == false`: the canonical form (entries sorted by key, comment first, fields before methods);
@@ -382,11 +391,17 @@
 			m.javadoc = Some(JavadocMapping("top".into()));
 			let w = wr(&m).unwrap();
 			if let Err(e) = rd::<2, ()>(&w) { println!("DEVIATION tiny_roundtrip a set with a comment on the set itself is written as {w:?}, which read refuses: {}", e.split_whitespace().collect::<Vec<_>>().join(" ").chars().take(160).collect::<String>()); }
-			let mut m = load::<2, ()>(&base);
-			m.classes.values_mut().next().unwrap().javadoc = Some(JavadocMapping("a\\nb".into()));
-			let w = wr(&m).unwrap();
-			let back = rd::<2, ()>(&w).map(|x| jd(&x.classes.values().next().unwrap().javadoc));
-			if back != Ok(Some("a\\nb".to_string())) { println!("DEVIATION tiny_roundtrip a comment made of the 4 characters a, backslash, n, b is written as {w:?} and read back as {back:?}"); }
+			// every comment of length <= 4 over {a, backslash, n, line break} survives writing and reading (341 comments)
+			for_all_strings(b"a\\n\n", 4, &mut |c| {
+				let c = String::from_utf8(c.to_vec()).unwrap();
+				t.at(c.as_bytes());
+				t.case(c.contains('\\'));
+				let mut m = load::<2, ()>(&base);
+				m.classes.values_mut().next().unwrap().javadoc = Some(JavadocMapping(c.clone()));
+				let w = wr(&m).unwrap();
+				let back = rd::<2, ()>(&w).map(|x| jd(&x.classes.values().next().unwrap().javadoc));
+				if back != Ok(Some(c.clone())) { t.fail(format!("comment {c:?}"), &format!("written as {w:?} and read back as {back:?}")); }
+			});
 		}
 		t.finish();
 	}
